@@ -67,5 +67,5 @@ MethodOf(k, f) ==
 RECURSIVE FirstFrom(_, _, _)
 FirstFrom(P(_), i, n) == IF i > n THEN 0 ELSE IF P(i) THEN i ELSE FirstFrom(P, i + 1, n)
 First(P(_), n) == FirstFrom(P, 1, n)
-Range(s) == {s[i] : i \in DOMAIN s}
+RangeOf(s) == {s[i] : i \in DOMAIN s}
 =============================================================================
